@@ -365,7 +365,7 @@ func C10(tier rt.Tier) int {
 			foreign = append(foreign, es...)
 		}
 	}
-	var honest, tampered, verifs, forgedKnown, accepted int64
+	var honest, tampered, verifs, forgedKnown, accepted, faulted int64
 	var mu sync.Mutex
 	reported := map[string]bool{}
 	knownWitness := ""
@@ -421,6 +421,41 @@ func C10(tier rt.Tier) int {
 							pool = append(pool, es...)
 						}
 						pool = append(pool, foreign...)
+						// a proof request that FAILS (storage read error at every position of every block's walk, on a
+						// freshly built trie) must not influence the next proof, of this trie or of another one
+						if mode != 0 && mode != 5 {
+							for b := uint64(1); b <= total; b++ {
+								for k := 0; k < 12; k++ {
+									ft, fm, fst := buildTrieS(c, Shared(false), mode)
+									fst.ArmGetFault(k)
+									_, _, ferr := ft.GetBlockProof(b)
+									hit := fst.GetFaultHit
+									fst.ArmGetFault(-1)
+									if !hit {
+										break
+									}
+									atomic.AddInt64(&faulted, 1)
+									for _, nt := range []struct {
+										name string
+										t    *wmpt.WeightedMerkleTrie
+										m    *model.WModel
+									}{{"the same trie", ft, fm}, {"another (in-memory) trie", t, m}} {
+										for vb := uint64(1); vb <= nt.m.Total(); vb++ {
+											own, _ := nt.m.Owner(vb)
+											key, p, err := nt.t.GetBlockProof(vb)
+											var h, v []byte
+											if err == nil {
+												h, v, err = (&wmpt.WeightedMerkleTrie{}).VerifyBlockProof(vb, p)
+											}
+											if err != nil || !bytes.Equal(key, own.Key) || !bytes.Equal(h, nt.m.Root()) || !bytes.Equal(v, own.Value) {
+												violate("after-failed-proof", fmt.Sprintf("content {%s} mode %d: GetBlockProof(%d) failed on storage read %d (%v); the next proof, of block %d on %s, gives key %x and verifies to (%x, %q, %v); want key %x, (%x, %q)", c, mode, b, k, ferr, vb, nt.name, key, h, v, err, own.Key, nt.m.Root(), own.Value), map[string]any{"content": c.String(), "mode": mode, "block": b, "failed_read": k})
+												return
+											}
+										}
+									}
+								}
+							}
+						}
 						check := func(b uint64, raw []byte, es proofElems, label string) {
 							atomic.AddInt64(&tampered, 1)
 							for vb := uint64(1); vb <= total; vb++ {
@@ -484,8 +519,9 @@ func C10(tier rt.Tier) int {
 	rep.Set("distinct_nontrivial", int(tampered))
 	rep.Set("honest_proofs_verified", int(honest))
 	rep.Set("tampered_proofs", int(tampered))
+	rep.Set("failed_proof_requests_followed_up", int(faulted))
 	rep.Set("tampered_verifications_yielding_trusted_root", int(accepted))
-	rep.Set("rule", fmt.Sprintf("every content of <= %d live keys (of six keys sharing 63/3/2/1/0 nibbles, two values each) in storage modes %v (0 memory, 1 committed level 0, 2 level 1, 3 level 64, 4 reloaded): every block's honest proof must verify to (root, owner's value); every honest proof is tampered by COMPLETE enumeration of: re-weighting (every ordered child pair, every delta, sum preserved), claimed weights of short/value nodes, every sibling swap, substitution of every element by every element of every other proof of the trie and of a second trie, drop/duplicate/truncate/reverse, and (for contents of <= %d keys) every single-bit flip; each tampered proof is verified for EVERY block 1..W; oracle: trusted root returned => value is the true owner's", maxKeys, modes, flipKeys))
+	rep.Set("rule", fmt.Sprintf("every content of <= %d live keys (of six keys sharing 63/3/2/1/0 nibbles, two values each) in storage modes %v (0 memory, 1 committed level 0, 2 level 1, 3 level 64, 4 reloaded): every block's honest proof must verify to (root, owner's value); after a proof request that failed on a storage read error (every read position, stored modes) every following proof of the same and of another trie must still be honest; every honest proof is tampered by COMPLETE enumeration of: re-weighting (every ordered child pair, every delta, sum preserved), claimed weights of short/value nodes, every sibling swap, substitution of every element by every element of every other proof of the trie and of a second trie, drop/duplicate/truncate/reverse, and (for contents of <= %d keys) every single-bit flip; each tampered proof is verified for EVERY block 1..W; oracle: trusted root returned => value is the true owner's", maxKeys, modes, flipKeys))
 	rep.Sample(map[string]any{"content": cs[len(cs)/2].String(), "tampering": "element 0: move weight 1 from child 0 to child 1"})
 	rep.Assumption("a forgery is attributed to the open finding C10-weights-not-bound only if the reference verifier (documented algorithm, navigation by claimed weights) accepts it too with the same root and value")
 	return rep.Finish()
